@@ -23,6 +23,7 @@ type c16case struct {
 	DoneAfterMs  int     `json:"engine_completes_after_ms"`
 	LateFraction float64 `json:"late_result_at_fraction_of_delay"`
 	LateResults  int     `json:"late_results"`
+	ErrEveryMs   int     `json:"engine_keeps_reporting_an_error_every_ms,omitempty"` // after completion, until the scan is cancelled
 }
 
 // fakeEngine: completion and results fully scripted.
@@ -31,6 +32,7 @@ type fakeEngine struct {
 	doneAfter time.Duration
 	lateAt    time.Duration
 	late      int
+	errEvery  time.Duration
 	mu        sync.Mutex
 	doneT     time.Time
 	putT      []time.Time
@@ -47,7 +49,27 @@ func (e *fakeEngine) Start(ctx context.Context, r *scan.Range) (<-chan interface
 		e.doneT = time.Now()
 		e.mu.Unlock()
 		close(done)
-		close(errc)
+		if e.errEvery > 0 {
+			// e.g. the link went down after the last probe: the receiver reports a read error every few ms
+			// for as long as the scan is alive
+			go func() {
+				defer close(errc)
+				for i := 0; ; i++ {
+					select {
+					case <-ctx.Done():
+						return
+					case <-time.After(e.errEvery):
+					}
+					select {
+					case <-ctx.Done():
+						return
+					case errc <- fmt.Errorf("scripted read error #%d after completion", i):
+					}
+				}
+			}()
+		} else {
+			close(errc)
+		}
 		if e.late > 0 {
 			time.Sleep(e.lateAt)
 			for i := 0; i < e.late; i++ {
@@ -72,7 +94,7 @@ func c16run(run *vlab.Run, c c16case) {
 	}
 	delay := time.Duration(c.DelayMs) * time.Millisecond
 	eng := &fakeEngine{results: scan.NewResultChan(ctx, 1000), doneAfter: time.Duration(c.DoneAfterMs) * time.Millisecond,
-		lateAt: time.Duration(float64(delay) * c.LateFraction), late: c.LateResults}
+		lateAt: time.Duration(float64(delay) * c.LateFraction), late: c.LateResults, errEvery: time.Duration(c.ErrEveryMs) * time.Millisecond}
 	conf := newEngineConfig(withLogger(&recLogger{inner: real, clock: clock}), withScanRange(&scan.Range{}), withExitDelay(delay))
 	health := startHealth()
 	var retT time.Time
@@ -98,6 +120,18 @@ func c16run(run *vlab.Run, c c16case) {
 	}
 	eng.mu.Unlock()
 	waited := retT.Sub(doneT)
+	if c.ErrEveryMs > 0 {
+		// "when the delay is over it does exit, within bounded time" although errors keep arriving
+		if over := waited - delay; over > 3*time.Second {
+			if stall > 300*time.Millisecond {
+				run.Inconclusive(fmt.Sprintf("late return but the monitor stalled %v: %+v", stall, c))
+			} else {
+				run.Violation("no-exit-while-errors-arrive", fmt.Sprintf("errors kept arriving every %d ms after completion; startScanEngine returned %v after the exit delay %v was over: %+v", c.ErrEveryMs, over, delay, c), c)
+			}
+		} else {
+			run.Count("exits_despite_continuing_errors", 1)
+		}
+	}
 	// doneT is taken BEFORE close(done), retT AFTER the return: scheduling can only lengthen `waited`
 	if waited < delay {
 		run.Violation("exit-before-delay", fmt.Sprintf("scan returned %v after the engine completed; the exit delay is %v: %+v", waited, delay, c), c)
@@ -133,6 +167,9 @@ func TestVerifC16(t *testing.T) {
 		for _, d := range delays {
 			for _, after := range []int{0, 5} {
 				cases = append(cases, c16case{DelayMs: d, DoneAfterMs: after})
+				if d >= 50 && d <= 300 && after == 0 {
+					cases = append(cases, c16case{DelayMs: d, ErrEveryMs: d / 5})
+				}
 				if d >= 50 {
 					cases = append(cases, c16case{DelayMs: d, DoneAfterMs: after, LateFraction: 0.33, LateResults: 1 + r%5})
 					cases = append(cases, c16case{DelayMs: d, DoneAfterMs: after, LateFraction: 0.1, LateResults: 50})
